@@ -72,6 +72,7 @@ func buildAtomTable() []AtomRow {
 		AtomRow{Kind: "containsSome", Arg: YSeq(YStr("a"), YStr("b"), YStr("c")), Set: []string{"a", "b", "c"}, Class: "set"},
 		AtomRow{Kind: "containsAll", Arg: YSeq(YStr("a"), YStr("b"), YStr("a"), YStr("b")), Set: []string{"a", "b"}, Class: "set"},
 		AtomRow{Kind: "containsSome", Arg: YSeq(YStr("c"), YStr("a"), YStr("b"), YStr("c"), YStr("a")), Set: []string{"a", "b", "c"}, Class: "set"},
+		AtomRow{Kind: "uniqueValues", Arg: YBool(true), Class: "unique"},
 		AtomRow{Kind: "lessThanProperty", Class: "cmp"},
 		AtomRow{Kind: "lessThanOrEqualsToProperty", Class: "cmp"},
 		AtomRow{Kind: "equalsToProperty", Class: "cmp"},
@@ -93,7 +94,8 @@ type Atom struct {
 	Row   int    `json:"row"`  // index into AtomTable
 	Prop  string `json:"prop"` // local name, e.g. "p3"
 	Prop2 string `json:"prop2,omitempty"`
-	Pol   int    `json:"pol"` // polarity bits, filled by MarkPolarity
+	Via   string `json:"via,omitempty"` // when set the constraint key is the path `ex.<Via> / ex.<Prop>`: values are those of the children
+	Pol   int    `json:"pol"`           // polarity bits, filled by MarkPolarity
 }
 
 func (a *Atom) R() AtomRow { return AtomTable[a.Row] }
@@ -131,9 +133,40 @@ func litIn(l Lit, pool []Lit) bool {
 
 // EvalAtom decides the atom on a node from the node's actual values.
 // ok=false means the values are outside the table (a generator defect).
-func EvalAtom(a *Atom, n *Node) (truth bool, ok bool) {
+func EvalAtom(a *Atom, g *Graph, n *Node) (truth bool, ok bool) {
 	r := a.R()
 	p := NS + a.Prop
+	if a.Via != "" {
+		// values reached through the path via/prop: a multiset over the children (kept as such for uniqueValues)
+		var all []Val
+		for _, c := range n.Children(NS + a.Via) {
+			all = append(all, g.Nodes[c].Props[p]...)
+		}
+		if r.Class == "unique" {
+			seen := map[string]bool{}
+			for _, v := range all {
+				k := "n"
+				if v.IsNode() {
+					k += itoa(v.Node)
+				} else {
+					k = v.Lit.Key()
+				}
+				if seen[k] {
+					return false, true
+				}
+				seen[k] = true
+			}
+			return true, true
+		}
+		// every other kind sees the set of distinct values
+		tmp := &Node{Props: map[string][]Val{}}
+		for _, v := range all {
+			tmp.AddVal(p, v)
+		}
+		n = tmp
+	} else if r.Class == "unique" {
+		return true, true // a directly held property is a set: never a duplicate
+	}
 	switch r.Class {
 	case "value":
 		for _, v := range n.Props[p] {
@@ -476,7 +509,7 @@ func Eval(f *F, g *Graph, node int) (truth bool, ok bool) {
 					var v bool
 					switch c.Kind {
 					case "atom":
-						tv, aok := EvalAtom(c.Atom, g.Nodes[n])
+						tv, aok := EvalAtom(c.Atom, g, g.Nodes[n])
 						if !aok {
 							ok = false
 						}
@@ -535,6 +568,11 @@ func (f *F) ToY() *Y {
 			key := "ex." + e.Prop
 			if e.Key != "" {
 				key = e.Key
+			}
+			for _, c := range e.Cs {
+				if c.Atom != nil && c.Atom.Via != "" && e.Key == "" {
+					key = "ex." + c.Atom.Via + " / ex." + e.Prop
+				}
 			}
 			cm := pc.Get(key)
 			if cm == nil {
@@ -667,4 +705,73 @@ func (p *Profile) ToY() *Y {
 	}
 	doc.Set("validations", vs)
 	return doc
+}
+
+// Branches estimates how many failure branches (rule bodies) the translator emits for the formula and for its
+// negation: and = sum, or = product, negation swaps, if/then/else as two implications. Quantifier bodies are
+// translated separately; their own counts are added to total. Used by generators to keep one case's compile and
+// evaluation time bounded (the expansion is multiplicative).
+func (f *F) Branches() (fail, failNeg, total int) {
+	const cap = 1 << 20
+	clamp := func(x int) int {
+		if x > cap || x < 0 {
+			return cap
+		}
+		return x
+	}
+	switch f.Op {
+	case "pc":
+		fail, failNeg = 0, 1
+		for _, e := range f.PC {
+			for _, c := range e.Cs {
+				fail++
+				if c.Body != nil {
+					bf, _, bt := c.Body.Branches()
+					total = clamp(total + bf + bt)
+				}
+			}
+		}
+		if fail == 0 {
+			fail = 1
+		}
+	case "and":
+		fail, failNeg = 0, 1
+		for _, s := range f.Sub {
+			a, b, t := s.Branches()
+			fail = clamp(fail + a)
+			failNeg = clamp(failNeg * b)
+			total = clamp(total + t)
+		}
+	case "or":
+		fail, failNeg = 1, 0
+		for _, s := range f.Sub {
+			a, b, t := s.Branches()
+			fail = clamp(fail * a)
+			failNeg = clamp(failNeg + b)
+			total = clamp(total + t)
+		}
+	case "not":
+		a, b, t := f.Sub[0].Branches()
+		fail, failNeg, total = b, a, t
+	case "if":
+		cf, cn, ct := f.Sub[0].Branches()
+		tf, tn, tt := f.Sub[1].Branches()
+		total = clamp(ct + tt)
+		if len(f.Sub) == 3 {
+			ef, en, et := f.Sub[2].Branches()
+			total = clamp(total + et)
+			fail = clamp(cn*tf + cf*ef)
+			failNeg = clamp((cf + tn) * (cn + en))
+		} else {
+			fail = clamp(cn * tf)
+			failNeg = clamp(cf + tn)
+		}
+	}
+	return fail, failNeg, clamp(total)
+}
+
+// Cost is the estimated number of rule bodies for the formula as a validation body.
+func (f *F) Cost() int {
+	a, _, t := f.Branches()
+	return a + t
 }
